@@ -13,6 +13,7 @@ import Voi.Drv.T0
 import Voi.Drv.Sr25519
 import Voi.Drv.Field
 import Voi.Drv.Panic
+import Voi.Drv.Consts
 namespace Voi.Drv
 
 structure DrvState where
@@ -38,6 +39,7 @@ def dispatch (st : DrvState) (ws : List String) : DrvState × String :=
   | "E1" :: op :: a => (st, handleE1 op a)
   | "L1" :: op :: a => (st, handleL1 op a)
   | "Q1" :: op :: a => let (s, r) := handleQ1 st.sr op a; ({ st with sr := s }, r)
+  | "K0" :: op :: a => (st, handleK0 op a)
   | "P1" :: op :: a => (st, handleP1 op a)
   | "F2" :: op :: a => (st, handleF2 op a)
   | "T0" :: op :: a => (st, handleT0 st.ir op a)
